@@ -306,19 +306,24 @@ def _has(engine, case, prop, v):
     )
 
 
-def minimise(engine, case, prop, v, budget=300):
+def minimise(engine, case, prop, v, budget=None, wall_s=None):
     """Greedy: try the engine's simpler variants while the same violation class
-    (oracle id + class) persists."""
+    (oracle id + class) persists. Bounded by a step budget and, as a safety net for
+    expensive cases, by wall-clock time (which only limits how small the replay gets)."""
     moves = getattr(engine, "shrink_moves", None)
     if moves is None:
         return case, 0
+    budget = budget or getattr(engine, "SHRINK_BUDGET", 120)
+    wall_s = wall_s or getattr(engine, "SHRINK_WALL_S", 90)
+    t0 = time.time()
     steps = 0
     improved = True
     while improved and steps < budget:
         improved = False
         for cand in moves(case):
             steps += 1
-            if steps > budget:
+            if steps > budget or time.time() - t0 > wall_s:
+                steps = budget + 1
                 break
             if _has(engine, cand, prop, v):
                 case = cand
